@@ -94,6 +94,11 @@ pub fn run(ctx: &mut Ctx) {
         let (mdoc, device_key): (_, SigningKey) = if si % 3 == 2 || collide_scenario {
             let dk = SigningKey::random(&mut rng);
             match issue_third_party(&mut rng, &pki, MDL, &nsm, alg, cose_key_of(&dk)) { Some(m) => { ctx.count("document:third-party-issuer"); (m, dk) } None => issue(&mut rng, &pki, MDL, nsm.clone(), alg, decoys) }
+        } else if si % 6 == 3 {
+            // a device key whose public point has a coordinate starting with a zero octet (the four shapes in turn)
+            let dk = ground_key(&mut rng, (si / 6 % 4) as u8);
+            ctx.count("device-key:coordinate-with-leading-zero");
+            (issue_with_key(&pki, MDL, nsm.clone(), alg, decoys, cose_key_of(&dk)), dk)
         } else { issue(&mut rng, &pki, MDL, nsm.clone(), alg, decoys) };
         let mut mdocs = vec![mdoc];
         let mut keys: BTreeMap<String, SigningKey> = [(MDL.to_string(), device_key)].into_iter().collect();
